@@ -339,7 +339,8 @@ def equal(a, b):
     if isinstance(a, (list, tuple)):
         return len(a) == len(b) and all(equal(x, y) for x, y in zip(a, b))
     if isinstance(a, dict):
-        return set(a) == set(b) and all(equal(a[k], b[k]) for k in a)
+        # insertion order is observable (iteration, repr): part of the value
+        return list(a) == list(b) and all(equal(a[k], b[k]) for k in a)
     try:
         return bool(a == b)
     except Exception:
